@@ -77,6 +77,8 @@ type FEnc struct {
 	checked      bool // arithmetic overflow obligations
 	phiSubst     map[*ssa.Phi]*Val
 	roCapture    map[*ssa.Alloc]bool
+	entryPtrs    []string // pointer values that existed when the function was entered (parameters, loads from the entry heap)
+	entryPtrSeen map[string]bool
 	loops        map[*ssa.BasicBlock]*loopInfo
 	domDepth     map[*ssa.BasicBlock]int
 	epochN       int
@@ -695,6 +697,9 @@ func (e *FEnc) load(st *State, p *Ptr) *Val {
 				t := fmt.Sprintf("(select %s %s)", e.heapGet(st, hn, hs), p.Ref)
 				ft := sty.Field(i).Type()
 				e.typeFacts(t, ft, 1)
+				if strings.HasSuffix(hn, "") && e.sortOf(ft) == "Ref" && strings.HasSuffix(e.heapGet(st, hn, hs), "@0") {
+					e.entryPtr(t)
+				}
 				if len(e.eng.cs.NonNilFields) > 0 && e.eng.cs.NonNilFields[types.TypeString(p.Elem, nil)+"."+sty.Field(i).Name()] {
 					e.fact(not(eq(t, e.nilOf(e.sortOf(ft)))))
 				}
@@ -1085,6 +1090,11 @@ func (e *FEnc) run() {
 	for _, p := range fn.Params {
 		v := e.newVal(p.Type(), "p_"+mangle(p.Name()))
 		e.vals[p] = v
+	}
+	for _, p := range fn.Params {
+		if v := e.vals[p]; v != nil && v.T != "" && v.Sort == "Ref" {
+			e.entryPtr(v.T)
+		}
 	}
 	for _, p := range fn.Params {
 		ts := types.TypeString(p.Type(), nil)
@@ -2412,4 +2422,20 @@ func (e *FEnc) arbitraryLike(v *Val) *Val {
 		return &Val{Sort: v.Sort, T: e.fresh("nores", v.Sort)}
 	}
 	return v
+}
+
+// entryPtr records a pointer value that existed before the function ran; the addresses of the function's own locals
+// and allocations are different from all of them (emitted with every query).
+func (e *FEnc) entryPtr(t string) {
+	if e.noFacts || len(t) > 300 {
+		return
+	}
+	if e.entryPtrSeen == nil {
+		e.entryPtrSeen = map[string]bool{}
+	}
+	if e.entryPtrSeen[t] {
+		return
+	}
+	e.entryPtrSeen[t] = true
+	e.entryPtrs = append(e.entryPtrs, t)
 }
